@@ -134,7 +134,7 @@ pub fn cmd_reader() {
             if rd.pos != prefix + flen {
                 // (the checksum the first decode reported stays in the record: it is judged on its own)
                 let crc = o.get("crc").cloned().unwrap_or(json!(-1));
-                o = json!({"ok": 4, "consumed": rd.pos - prefix, "crc": crc});
+                o = json!({"ok": 4, "consumed": rd.pos.saturating_sub(prefix), "crc": crc});
                 outcome = "misaligned";
             } else {
                 let r2 = catch_unwind(AssertUnwindSafe(|| Frame::from_reader(&mut rd)));
@@ -145,7 +145,7 @@ pub fn cmd_reader() {
                 } else if rd.pos != prefix + 2 * flen {
                     // the same frame again, but not read from where the first one ended (or not wholly)
                     let crc = o.get("crc").cloned().unwrap_or(json!(-1));
-                    o = json!({"ok": 4, "consumed": rd.pos - prefix.min(rd.pos), "crc": crc});
+                    o = json!({"ok": 4, "consumed": rd.pos.saturating_sub(prefix), "crc": crc});
                     outcome = "misaligned";
                 }
             }
